@@ -541,7 +541,7 @@ def block_diagonalize(
             # not known; numpy and scipy broadcast it, sympy does not.
             if isinstance(mask, sympy.MatrixBase) and mask.shape == x.shape:
                 return mask
-            return sympy.Matrix(np.broadcast_to(np.array(mask), x.shape))
+            return sympy.Matrix(np.broadcast_to(np.array(mask).astype(int), x.shape))
 
         def diag(x, index):
             x = x[index] if isinstance(x, BlockSeries) else x
